@@ -15,6 +15,8 @@ lists every place in the sources where state could live OUTSIDE those objects:
       list, dict, set, defaultdict, OrderedDict, deque, Counter),
     * a module-level name bound to such a container, or rebound by a `global` statement in a function,
     * a function decorated with functools cache decorators (lru_cache, cache, cached_property is per object: allowed).
+    * object state outside the models (see OBJECT_STATE below): an attribute assigned, or a container attribute changed,
+      in a method other than __init__ that is not on the list of what the hand models carry.
     Module-level names written in UPPER_CASE (optionally with a leading underscore) that no function of the
     module assigns to, mutates through a subscript / attribute store, or calls a mutating method on, are constants.
 
@@ -142,6 +144,62 @@ def py_sites(repo, rel):
                         if isinstance(t, ast.Name) and val is not None and is_mutable_value(val):
                             out.append("%s: class attribute `%s.%s` is a mutable container shared by all instances" % (rel, s.name, t.id))
     del local_names
+    return out + object_state_sites(tree, rel)
+
+
+# state an OBJECT of the library carries from one call to the next, outside what its constructor sets up: attributes
+# assigned, containers changed (method call / subscript store / del) in methods other than __init__.  The list below is
+# what the hand models have (writer counters and the values remembered by close; the reader's one cached file; the
+# metadata writer's field list; the ring buffer's records and size; observers and threads of the long-running tools).
+# Anything else -- a new memo, a "seen" set, a remembered first file -- is a place where a result can come to depend on
+# the calls made before, which no model has.
+OBJECT_STATE = {
+    "DigitalRFWriter": {"_total_samples_written", "_total_gap_samples", "_next_avail_sample", "_last_file_written",
+                        "_last_dir_written", "_last_utc_timestamp", "del _channelObj"},
+    "_top_level_dir_properties": {"_cachedFile", "_cachedFilename", "rf_data", "rf_data_len", "rf_index", "rf_index_len"},
+    "DigitalRFReader": {"_channel_dict.clear", "_channel_metadata_reader[]"},
+    "DigitalMetadataWriter": {"_fields", "_digital_metadata_version", "_fields.sort"},
+    "DigitalRFRingbufferHandlerBase": {"records.pop", "records[]"},
+    "SizeExpirer": {"active_size", "records[]"},
+    "DigitalRFRingbuffer": {"observer", "_start_time", "_task_threads.append", "_task_threads[]"},
+    "DigitalRFMirror": {"observer"},
+    "DirWatcher": {"root_watch", "_watches.clear", "_stopped_handlers.update"},
+}
+
+
+def object_state_sites(tree, rel):
+    out = []
+    for c in tree.body:
+        if not isinstance(c, ast.ClassDef):
+            continue
+        allowed = OBJECT_STATE.get(c.name, set())
+        found = {}
+        for m in c.body:
+            if not isinstance(m, ast.FunctionDef) or m.name == "__init__":
+                continue
+            for n in ast.walk(m):
+                tg = []
+                if isinstance(n, ast.Assign):
+                    tg = n.targets
+                elif isinstance(n, (ast.AugAssign, ast.AnnAssign)):
+                    tg = [n.target]
+                for t in tg:
+                    for x in ast.walk(t):
+                        if isinstance(x, ast.Attribute) and isinstance(x.value, ast.Name) and x.value.id == "self" and isinstance(x.ctx, ast.Store):
+                            found.setdefault(x.attr, m.name)
+                if isinstance(n, ast.Call) and isinstance(n.func, ast.Attribute) and n.func.attr in MUT_METHODS and \
+                        isinstance(n.func.value, ast.Attribute) and isinstance(n.func.value.value, ast.Name) and n.func.value.value.id == "self":
+                    found.setdefault(n.func.value.attr + "." + n.func.attr, m.name)
+                if isinstance(n, ast.Subscript) and isinstance(n.ctx, (ast.Store, ast.Del)) and isinstance(n.value, ast.Attribute) and \
+                        isinstance(n.value.value, ast.Name) and n.value.value.id == "self":
+                    found.setdefault(n.value.attr + "[]", m.name)
+                if isinstance(n, ast.Delete):
+                    for t in n.targets:
+                        if isinstance(t, ast.Attribute) and isinstance(t.value, ast.Name) and t.value.id == "self":
+                            found.setdefault("del " + t.attr, m.name)
+        for k in sorted(found):
+            if k not in allowed:
+                out.append("%s: object state `%s.%s` changed in %s() is not part of any model" % (rel, c.name, k, found[k]))
     return out
 
 
